@@ -84,38 +84,24 @@ _RE_VIOL_TEMP = re.compile(r"Error: Temporal properties were violated")
 _RE_SIM = re.compile(r"The number of states generated: (\d+)")
 
 
+def _depth(l):
+    return (l.count("<<") - l.count(">>") + l.count("{") - l.count("}") + l.count("[") - l.count("]")
+            + l.count("(") - l.count(")"))
+
+
 def _collect_prints(out):
-    """PrintT output: values may be pretty-printed over several lines; join until brackets balance."""
+    """PrintT output: values may be pretty-printed over several lines; join until brackets balance.
+    (The specifications print no strings that contain brackets, so counting is exact.)"""
     res, cur, depth = [], None, 0
     for l in out.splitlines():
         if cur is None:
             if not (l.startswith("<<") or l.startswith('"')):
                 continue
-            cur, depth = "", 0
-        cur += (" " if cur else "") + l.strip()
-        instr = False
-        depth = 0
-        i = 0
-        while i < len(cur):
-            ch = cur[i]
-            if instr:
-                if ch == "\\":
-                    i += 1
-                elif ch == '"':
-                    instr = False
-            elif ch == '"':
-                instr = True
-            elif cur.startswith("<<", i):
-                depth += 1; i += 1
-            elif cur.startswith(">>", i):
-                depth -= 1; i += 1
-            elif ch in "{[(":
-                depth += 1
-            elif ch in "}])":
-                depth -= 1
-            i += 1
-        if depth <= 0 and not instr:
-            res.append(cur)
+            cur, depth = [], 0
+        cur.append(l.strip())
+        depth += _depth(l)
+        if depth <= 0:
+            res.append(" ".join(cur))
             cur = None
     return res
 
